@@ -214,6 +214,11 @@ pub fn child(seed: u64) -> i32 {
     }
     // collect until the expected totals are reached (bounded liveness), then a short quiet period
     let deadline = Instant::now() + Duration::from_secs(12);
+    // with sampling on the histogram lives in a reservoir: C10 promises every recorded value only "with sampling
+    // off", and a record() that straddles a flush of the reservoir can lose its value (C16's recorded finding
+    // push-lost-when-drain-resets-count). Completeness of the histogram is then waited for only this long after
+    // everything else has arrived; what did arrive is checked as before.
+    let mut others_complete_since: Option<Instant> = None;
     let name = |n: &str| if with_prefix { format!("pfx.{}", n) } else { n.to_string() };
     loop {
         std::thread::sleep(interval * 3);
@@ -300,11 +305,22 @@ pub fn child(seed: u64) -> i32 {
                 return fail("delta-exceeds-increments", format!("ci{} received {} > incremented {}", i, got, total_inc[i]));
             }
         }
+        let others_complete = (0..2).all(|i| sums.get(&name(&format!("ci{}", i))).copied().unwrap_or(0) == total_inc[i]) && gauge_last.map(|g| g == last_gauge).unwrap_or(false);
+        if others_complete && others_complete_since.is_none() {
+            others_complete_since = Some(Instant::now());
+        }
         let hist_complete = if sampling_mode == 2 {
             // more than 4 values are recorded back to back in every phase, so at least one flush must have sampled
             sampled_messages >= 1 && hist.len() < tags.len()
-        } else {
+        } else if sampling_mode == 1 {
             tags.iter().all(|t| hist.contains_key(t))
+        } else {
+            let missing = tags.iter().filter(|t| !hist.contains_key(t)).count();
+            let waited = others_complete_since.map(|t| t.elapsed() > Duration::from_secs(3)).unwrap_or(false);
+            if missing > 0 && waited {
+                println!("harness: {} of {} histogram values did not arrive with sampling on (reservoir storage): not asserted by C10", missing, tags.len());
+            }
+            missing == 0 || waited
         };
         if hist.keys().any(|t| !tags.contains(t)) {
             return fail("sampled-value-not-recorded", format!("histogram values received that were never recorded: {:?}", hist.keys().filter(|t| !tags.contains(t)).collect::<Vec<_>>()));
